@@ -318,7 +318,7 @@ func c11Scenarios() []c11Scenario {
 
 func TestC11(t *testing.T) {
 	run := h.NewRun("C11", "fault_enumeration")
-	mons := []func(*w.MonCtx){w.MonC01, w.MonC03, w.MonC04, w.MonC05, w.MonC10, w.MonC12, w.MonC13}
+	mons := []func(*w.MonCtx){w.MonC01, w.MonC03, w.MonC04, w.MonC05, w.MonC07, w.MonC08, w.MonC10, w.MonC12, w.MonC13, w.MonC14, w.MonC15}
 	totalCalls := 0
 	for _, c := range c11Scenarios() {
 		if run.Expired() || run.HasUnknownViolation() {
@@ -371,5 +371,5 @@ func TestC11(t *testing.T) {
 	run.Sample(c11Fault{"R_ers(ns/foo-8a9e59)", 1, "create Pod ns/", 0, "lost"})
 	run.Assumptions = []string{"a fault addresses a call by (step, verb/kind/name, occurrence), never by arrival order; a stop inside a parallel batch fails the batch members that sort after the target",
 		"process stop = the remaining calls of the reconcile fail and the next reconcile runs on fresh controller instances (empty back-off)"}
-	exit(run.Finish("for each corpus scenario (first deployment, rolling update, canary start and timed promotion, manual validation, canary failure and rollback, canary failed before any pod exists, paused canary validated followed by the next rollout, node removal, settings change) the failure-free canonical run fixes the list of API calls; for EVERY write call x {rejected, applied-but-answer-lost, process stop} and every rejected List (thorough: also rejected Gets and pairs of faults) the run is replayed with the fault, the safety monitors C01/C03/C04/C05/C10/C12/C13 watch every step, the fair closure follows and the final pods/status must equal the failure-free ones; non-trivial = distinct (scenario, fault kind, call kind)"))
+	exit(run.Finish("for each corpus scenario (first deployment, rolling update, canary start and timed promotion, manual validation, canary failure and rollback, canary failed before any pod exists, paused canary validated followed by the next rollout, node removal, settings change) the failure-free canonical run fixes the list of API calls; for EVERY write call x {rejected, applied-but-answer-lost, process stop} and every rejected List (thorough: also rejected Gets and pairs of faults) the run is replayed with the fault, the safety monitors C01/C03/C04/C05/C07/C08/C10/C12/C13/C14/C15 watch every step, the fair closure follows and the final pods/status must equal the failure-free ones; non-trivial = distinct (scenario, fault kind, call kind)"))
 }
